@@ -40,6 +40,7 @@ func zzvC01Configs(thorough bool) []zzvC01Cfg {
 	progSets := map[string][][2]any{
 		"P1":    {{"example.com/p1", []string{"v1.0.0", "v2.0.0"}}},
 		"P1+P2": {{"example.com/p1", []string{"v1.0.0", "v2.0.0"}}, {"example.com/p2", []string{"v1.0.0"}}},
+		"P2+P1": {{"example.com/p2", []string{"v1.0.0"}}, {"example.com/p1", []string{"v1.0.0", "v2.0.0"}}},
 		"none":  {},
 	}
 	goVers := map[string][]string{"g1": {"go1.21.0"}, "g1g2": {"go1.21.0", "go1.22.0"}}
@@ -48,7 +49,7 @@ func zzvC01Configs(thorough bool) []zzvC01Cfg {
 	rates := []float64{0, 0.25, 1}
 	srates := []float64{0.25, 1}
 	samples := []float64{0, 0.25, 1}
-	for _, pn := range []string{"P1", "P1+P2", "none"} {
+	for _, pn := range []string{"P1", "P1+P2", "P2+P1", "none"} {
 		for _, gn := range []string{"g1", "g1g2"} {
 			for _, cn := range []string{"c", "c:{a,b}", "c:{a}", "d:{a,b}+c"} {
 				for _, sn := range []string{"s", "nostack"} {
@@ -61,11 +62,17 @@ func zzvC01Configs(thorough bool) []zzvC01Cfg {
 								cfg := &telemetry.UploadConfig{GOOS: []string{"linux"}, GOARCH: []string{"amd64"}, GoVersion: goVers[gn], SampleRate: sample}
 								for _, ps := range progSets[pn] {
 									pc := &telemetry.ProgramConfig{Name: ps[0].(string), Versions: ps[1].([]string)}
+									// The second program lists the same names with different rates:
+									// rates are per program.
+									cr, csr := r, sr
+									if pc.Name == "example.com/p2" {
+										cr, csr = 1-r, 1.25-sr
+									}
 									for _, c := range counterSets[cn] {
-										pc.Counters = append(pc.Counters, telemetry.CounterConfig{Name: c, Rate: r})
+										pc.Counters = append(pc.Counters, telemetry.CounterConfig{Name: c, Rate: cr})
 									}
 									for _, s := range stackSets[sn] {
-										pc.Stacks = append(pc.Stacks, telemetry.CounterConfig{Name: s, Rate: sr, Depth: 5})
+										pc.Stacks = append(pc.Stacks, telemetry.CounterConfig{Name: s, Rate: csr, Depth: 5})
 									}
 									cfg.Programs = append(cfg.Programs, pc)
 								}
